@@ -14,6 +14,7 @@ from ..redcase import (
     gen_reduce_case,
     gen_scan_case,
     nblocks_reduced,
+    plain_kwargs,
     shrink_reduce,
     simplify_knobs,
     swarm_knobs,
@@ -74,7 +75,8 @@ def _baseline(case, split_every=None):
 def run(case, tape: Tape, ctx):
     knobs = case["knobs"]
     nb = nblocks_reduced(case)
-    func = case["kwargs"]["func"]
+    kw = plain_kwargs(case)
+    func = kw["func"]
     try:
         base = _baseline(case)
     except REFUSALS as e:
@@ -85,10 +87,10 @@ def run(case, tape: Tape, ctx):
         raise Violation(cls, msg, **det)
     se = knobs.get("split_every") or 4
     depth = tree_depth(nb, se)
-    method = case["kwargs"].get("method")
+    method = kw.get("method")
     ctx.nontrivial = nb >= 2
     arrdt = np.dtype(case["array"]["dtype"]).kind
-    ctx.cell(func, method, case["kwargs"].get("reindex"), case["meta"]["pattern"], arrdt,
+    ctx.cell(func, method, kw.get("reindex"), case["meta"]["pattern"], arrdt,
              "dask" if case["by_dask"] else "np", min(depth, 4), min(nb, 6) if nb < 6 else "6+")
     ctx.probe("tree_depth>=3", depth >= 3)
     ctx.probe("scan_blocks>=4", case["kind"] == "scan" and nb >= 4)
